@@ -123,6 +123,24 @@ static std::string in_child(const std::string& what, const std::string& name, co
         const bool ok = cctz::load_time_zone(n, &z);
         out += std::string(ok ? "1" : "0") + "|" + z.name() + "|" + fingerprint(z) + "|" + (z == cctz::utc_time_zone() ? "utc" : "other") + "#";
       }
+    } else if (what == "load2env") {
+      // the environment changes between two loads in ONE process: each load follows the environment of its own moment
+      const size_t bar = name.find('|');
+      int k = 0;
+      for (const std::string& n : {name.substr(0, bar), name.substr(bar + 1)}) {
+        if (k++ == 1) apply_env("TZDIR", tz);  // 'tz' carries the second TZDIR value for this kind of cell
+        cctz::time_zone z;
+        const bool ok = cctz::load_time_zone(n, &z);
+        out += std::string(ok ? "1" : "0") + "|" + z.name() + "|" + fingerprint(z) + "|" + (z == cctz::utc_time_zone() ? "utc" : "other") + "#";
+      }
+    } else if (what == "local2") {
+      // local_time_zone() twice, with TZ / LOCALTIME changed in between ('name' carries "TZ2|LOCALTIME2")
+      const size_t bar = name.find('|');
+      for (int k = 0; k < 2; ++k) {
+        if (k == 1) { apply_env("TZ", name.substr(0, bar)); apply_env("LOCALTIME", name.substr(bar + 1)); }
+        const cctz::time_zone z = cctz::local_time_zone();
+        out += "1|" + z.name() + "|" + fingerprint(z) + "|" + (z == cctz::utc_time_zone() ? "utc" : "other") + "#";
+      }
     } else {
       const cctz::time_zone z = cctz::local_time_zone();
       out += "1|" + z.name() + "|" + fingerprint(z) + "|" + (z == cctz::utc_time_zone() ? "utc" : "other");
@@ -162,6 +180,10 @@ static void build_fixture(const std::string& dir) {
   cp(zi + "/America/New_York", dir + "/zoneinfo/Test/Valid");
   cp(zi + "/Europe/London", dir + "/zoneinfo/Test/Other");
   cp(zi + "/Asia/Tokyo", dir + "/localtime_file");
+  cp(zi + "/Europe/Paris", dir + "/localtime_file2");
+  mkdir((dir + "/zoneinfo2").c_str(), 0777); mkdir((dir + "/zoneinfo2/Test").c_str(), 0777);
+  cp(zi + "/Asia/Tokyo", dir + "/zoneinfo2/Test/Other");      // the same relative name means another zone under the second TZDIR
+  cp(zi + "/Asia/Kolkata", dir + "/zoneinfo2/Test/Only2");    // and this one exists only there
   cp(zi + "/Australia/Sydney", dir + "/zoneinfo/localtime");  // a decoy: TZ=localtime must NOT resolve relative to TZDIR
   cp(zi + "/Asia/Kolkata", dir + "/zoneinfo/localtime.bak");   // and names that merely begin with the keyword are ordinary names
   vf::write_file(dir + "/zoneinfo/Test/Truncated", vf::read_file(zi + "/America/New_York").substr(0, 700));
@@ -202,6 +224,21 @@ static bool run_cell(const std::string& what, const std::string& name, const std
     }
     return true;
   }
+  if (what == "load2env" || what == "local2") {
+    const size_t bar = name.find('|');
+    const std::string got = in_child(what, name, tzdir, tz, lt);
+    std::vector<std::string> parts; { std::istringstream is(got); std::string t; while (std::getline(is, t, '#')) parts.push_back(t); }
+    if (parts.size() < 2) { *why = "unparsable child answer: " + got; return false; }
+    for (int k = 0; k < 2; ++k) {
+      Expect e;
+      if (what == "load2env") e = expect_load(k == 0 ? name.substr(0, bar) : name.substr(bar + 1), k == 0 ? tzdir : tz);
+      else e = k == 0 ? expect_local(tz, lt, tzdir, resolved) : expect_local(name.substr(0, bar), name.substr(bar + 1), tzdir, resolved);
+      if (what == "load2env") *resolved = e.path;
+      std::string w;
+      if (!compare(parts[k], e, what == "local2", &w)) { *why = std::string(what == "load2env" ? "load" : "local_time_zone()") + " #" + std::to_string(k + 1) + (k ? " (after the environment changed)" : "") + ": " + w + " [child answered: " + got + "]"; return false; }
+    }
+    return true;
+  }
   Expect e;
   if (what == "load") { e = expect_load(name, tzdir); *resolved = e.path; }
   else e = expect_local(tz, lt, tzdir, resolved);
@@ -226,7 +263,8 @@ static bool replay(const vf::Case& c, std::string* why) {
 static void run(const vf::Args& a, vf::Evidence& ev, vf::Reporter& rep) {
   ev.rule = "exhaustive environment matrix, each cell in a forked child: load_time_zone over TZDIR in {unset, empty, fixture, "
             "nonexistent} x 23 names (relative, absolute, file:-prefixed relative/absolute, empty, directory, unreadable, truncated, "
-            "leap-second data (fat and slim layout), ':'-prefixed, UTC, UTC0, fixed, missing, 'file:' alone, doubled slash, ./ prefix, non-canonical fixed-offset spellings) plus 11 pairs of spellings loaded one after the other in one process; local_time_zone "
+            "leap-second data (fat and slim layout), ':'-prefixed, UTC, UTC0, fixed, missing, 'file:' alone, doubled slash, ./ prefix, non-canonical fixed-offset spellings) plus 11 pairs of spellings loaded one after the other in one process, plus two loads / two local_time_zone() calls with "
+            "TZDIR / TZ / LOCALTIME changed in between (each call follows the environment of its own moment); local_time_zone "
             "over TZDIR (4) x TZ {unset, empty, X, :X, localtime, :localtime, invalid, ::X, :/abs, five look-alikes of the keyword such as 'localtime.bak', UTC, a fixed-offset spelling} x LOCALTIME {unset, valid, "
             "missing, empty, ':'-prefixed}. Oracle: documented resolution -> path -> independent TZif reader -> expected success, "
             "name(), lookup fingerprint, equality with utc_time_zone(); default-constructed zone == UTC; a repeated load answers "
@@ -241,7 +279,7 @@ static void run(const vf::Args& a, vf::Evidence& ev, vf::Reporter& rep) {
     vf::CurrentScope cur([&]() { return c; });
     const bool ok = run_cell(what, name, tzdir, tz, lt, &why, &resolved);
     ev.eval();
-    ev.cls(what == "load" ? "load_time_zone_cells" : "local_time_zone_cells");
+    ev.cls(what == "load" ? "load_time_zone_cells" : what == "load2" ? "two_spellings_cells" : what == "load2env" || what == "local2" ? "environment_changes_between_two_calls_cells" : "local_time_zone_cells");
     const bool nontriv = what == "load" ? (tzdir != kUnset || name.compare(0, 5, "file:") == 0 || (!name.empty() && name[0] == '/')) : true;
     if (nontriv) ev.nt(vf::fnv(c.serialize()));
     if (ev.want_sample(what)) ev.sample(what, what + "(" + (what == "load" ? "'" + unfix(name) + "'" : "") + ") TZDIR=" + show(unfix(tzdir)) + " TZ=" + show(unfix(tz)) + " LOCALTIME=" + show(unfix(lt)) + " -> resolves to '" + unfix(resolved) + "'");
@@ -255,6 +293,21 @@ static void run(const vf::Args& a, vf::Evidence& ev, vf::Reporter& rep) {
                                     std::string("Fixed/UTC+02:00:00|Fixed/UTC+01:60:00"), std::string("Fixed/UTC+01:60:00|Fixed/UTC+02:00:00"),
                                     std::string("Fixed/UTC+01:59:60|Fixed/UTC+01:60:00"), std::string("Fixed/UTC-00:29:60|Fixed/UTC-00:30:00")})
       do_cell("load2", pair, td, kUnset, kUnset);
+  // the environment changes during the life of the process
+  {
+    const std::vector<std::string> dirs = {kUnset, g_fix + "/zoneinfo", g_fix + "/zoneinfo2", g_fix + "/nonexistent"};
+    for (auto& d1 : dirs) for (auto& d2 : dirs) {
+      if (d1 == d2) continue;
+      for (const std::string& pair : {std::string("Test/Valid|Test/Other"), std::string("Test/Valid|Test/Only2"), std::string("Test/Missing|Test/Other"), std::string("UTC|Test/Only2")})
+        do_cell("load2env", pair, d1, d2, kUnset);
+    }
+    const std::string td = g_fix + "/zoneinfo";
+    for (const std::string& tz1 : {std::string(kUnset), std::string("Test/Valid"), std::string("localtime")})
+      for (const std::string& lt1 : {std::string(kUnset), g_fix + "/localtime_file"})
+        for (const std::string& second : {std::string("Test/Other|") + kUnset, std::string("localtime|") + g_fix + "/localtime_file2", std::string(kUnset) + "|" + g_fix + "/localtime_file2",
+                                          std::string("Invalid/Zone|") + kUnset, std::string(":Test/Valid|") + g_fix + "/missing_localtime"})
+          do_cell("local2", second, td, tz1, lt1);
+  }
   for (auto& td : tzdir_values()) for (auto& tz : tz_values()) for (auto& lt : localtime_values()) do_cell("local", "", td, tz, lt);
   ev.exhaustive = true;
   if (a.shard == 0) ev.extra["matrix_cells"] = std::to_string(cell);
